@@ -214,7 +214,14 @@ func (e *kvElection) handleWatchEvent(ctx context.Context, entry Entry) {
 				)...,
 			)
 			if e.becomeFollower() {
-				e.runOnDemote("leadership_lost_via_watcher")
+				// In its own goroutine (as documented for OnDemote): this is the
+				// follower's watch loop, which also runs the periodic check and
+				// must not be held up by a slow user callback.
+				e.wg.Add(1)
+				go func() {
+					defer e.wg.Done()
+					e.runOnDemote("leadership_lost_via_watcher")
+				}()
 			}
 		}
 		return
